@@ -78,7 +78,7 @@ RealCases == {[kind |-> "real", ax |-> ax, avar |-> TRUE, map |-> m, place |-> p
          \cup {[kind |-> "real", ax |-> ax, avar |-> FALSE, map |-> <<>>, place |-> p, lay |-> StdLayout] :
                   ax \in RealAxes, p \in {0, 1}}
          \cup {[kind |-> "real", ax |-> ax, avar |-> TRUE, map |-> m, place |-> p, lay |-> StdLayout] :
-                  ax \in RealAxes2, m \in RealMaps2, p \in {0, 1}}
+                  ax \in RealAxes2, m \in RealMaps2, p \in 0 .. 2}
          \cup {[kind |-> "real", ax |-> ax, avar |-> TRUE, map |-> m, place |-> p, lay |-> l] :
                   ax \in LayAxes, m \in LayMaps, p \in 0 .. 2, l \in Layouts}
          \cup {[kind |-> "real", ax |-> ax, avar |-> FALSE, map |-> <<>>, place |-> p, lay |-> l] :
@@ -238,9 +238,10 @@ RealAxesThorough == RealAxesQuickW \cup {
 \* ---- round 3: general maps, fvar layouts ---------------------------------------------------
 \* scaled-down (SU = 4 at FB = 4, 16 at FB = 6): from-coordinates from -1.25 to +1.25, to-coordinates over the
 \* whole range of the scaled-down "F2Dot14" (-2 .. 2 - 1 unit)
-GenFromsQuick == {-5, -4, -3, -1, 0, 2, 4, 5}
-GenTosQuick   == {-8, -5, -4, -1, 0, 3, 4, 7}
-GenAxesQuick  == {<<-16, 0, 16>>, <<-7, -2, 6>>}       \* every 16.16 position; positions that are truncated
+GenFromsQuick == {-5, -4, -3, -1, 0, 1, 2, 4, 5}
+GenTosQuick   == {-8, -5, -4, -1, 0, 1, 3, 4, 7}
+\* every 16.16 position; positions that are truncated; a degenerate side
+GenAxesQuick  == {<<-16, 0, 16>>, <<-7, -2, 6>>, <<0, 0, 6>>}
 GenFromsThorough == {-20, -16, -9, -1, 0, 5, 16, 18}
 GenTosThorough   == {-32, -17, -16, -3, 0, 7, 16, 31}
 GenAxesThorough  == {<<-64, 0, 64>>, <<-21, -4, 33>>, <<0, 0, 5>>}
